@@ -22,11 +22,13 @@ import VotelibProofs.Lemmas.RenameCondorcetConvert
 import VotelibProofs.Lemmas.PermCondorcetRules2
 import VotelibProofs.Lemmas.PermScoreMJ
 import VotelibProofs.Lemmas.RenameScoreMJ
+import VotelibProofs.Lemmas.RenameScoreMJ2
 import VotelibProofs.Lemmas.PermSTV8
 import VotelibProofs.Lemmas.PermTrans
 import VotelibProofs.Lemmas.PermSymmetric2
 import VotelibProofs.Lemmas.PermCondorcetRulesAt
 import VotelibProofs.Lemmas.PermQuotaSubtract
+import VotelibProofs.Lemmas.RenameQuotaSubtract
 import VotelibProofs.Lemmas.PermRankedPairsWitness
 import VotelibProofs.Lemmas.PermBaldwin
 import VotelibProofs.Lemmas.PermTideman
@@ -35,6 +37,8 @@ import VotelibProofs.Lemmas.RenameStar
 import VotelibProofs.Lemmas.RenameBucklin2
 import VotelibProofs.Lemmas.RenameBenham
 import VotelibProofs.Lemmas.RenameTidemanN
+import VotelibProofs.Lemmas.PermBenhamN
+import VotelibProofs.Lemmas.RenamePure
 import VotelibProofs.Lemmas.RenameBaldwin
 import VotelibProofs.Lemmas.PermSymmetric3
 namespace VL.C10
@@ -501,6 +505,27 @@ theorem majority_judgment_perm (tb : Score.TieBreaking) (cfg : Score.Cfg) {p₁ 
     ExceptEquiv SlotsEquiv (Score.majorityJudgment tb cfg p₁ n) (Score.majorityJudgment tb cfg p₂ n) :=
   Perm.majorityJudgment_perm tb cfg h n
 
+/-- **Majority judgment (both tie-breakers): renaming equivariance for every injective renaming**, every configuration, no
+    hypothesis on the profile: the renamed outcome up to the order of equally placed winners.  (The tied candidates' table is
+    built in id order, so a non-monotone renaming permutes its rows; both tie-breakers are row-order free there.) -/
+theorem majority_judgment_rename (σ : Cand → Cand) (hσ : Function.Injective σ) (tb : Score.TieBreaking) (cfg : Score.Cfg)
+    (p : Score.SProfile) (n : Nat) :
+    ExceptEquiv (fun r' r => SlotsEquiv r' (r.map (renSlot σ)))
+      (Score.majorityJudgment tb cfg (Perm.renScore σ p) n) (Score.majorityJudgment tb cfg p n) :=
+  Perm.majorityJudgment_rename hσ tb cfg p n
+
+/-- the same with the renamed ballots in any order, each listing its (candidate, score) pairs in any order -/
+theorem majority_judgment_rename_same (σ : Cand → Cand) (hσ : Function.Injective σ) (tb : Score.TieBreaking) (cfg : Score.Cfg)
+    (p p' : Score.SProfile) (h : Perm.SameBallots p' (Perm.renScore σ p)) (n : Nat) :
+    ExceptEquiv (fun r' r => SlotsEquiv r' (r.map (renSlot σ)))
+      (Score.majorityJudgment tb cfg p' n) (Score.majorityJudgment tb cfg p n) :=
+  Perm.majorityJudgment_rename_same hσ tb cfg p p' h n
+
+/-- the default tie-breaker does not depend on the order of the rows of the tied table -/
+theorem mj_tiebreak_default_row_order (fuel : Nat) {t₁ t₂ : Score.ScoreTable} (h : t₁.Perm t₂) (hnd : (t₁.map (·.1)).Nodup) (n : Nat) :
+    ExceptEquiv SlotsEquiv (Score.tiebreakDefault fuel t₁ n) (Score.tiebreakDefault fuel t₂ n) :=
+  Perm.mj_tiebreakDefault_permRows fuel h hnd n
+
 /-- **Majority judgment: renaming equivariance** — proved for order-preserving renamings only (the model breaks ties over
     the tied candidates in id order; the general statement is listed as unproved) -/
 theorem majority_judgment_rename_mono_partial (σ : Cand → Cand) (hmono : StrictMono σ) (tb : Score.TieBreaking) (cfg : Score.Cfg)
@@ -648,6 +673,44 @@ theorem largest_remainder_perm_all (cfg : QD.Cfg) {v₁ v₂ : Votes} (h : v₁.
     ExceptEquiv Perm.DistEquiv (QD.largestRemainder cfg v₁ n prev maxS) (QD.largestRemainder cfg v₂ n prev maxS) :=
   Perm.largestRemainder_perm_all cfg h hnd n prev maxS hprev
 
+/-- **QuotaDistributor: renaming equivariance for every over-award policy** (`subtract` included): the renamed dict in the same
+    insertion order (a Tie key, a set, is re-sorted by `Perm.renKey`); every key of a result is a candidate or a canonical Tie key -/
+theorem quota_distributor_rename_all (σ : Cand → Cand) (hσ : Function.Injective σ) (cfg : QD.Cfg) (v : Votes)
+    (hnd : (v.map (·.1)).Nodup) (n : Nat) (prev maxS : QD.IMap) :
+    QD.quotaDistribute cfg (renVotes σ v) n (Perm.renI σ prev) (Perm.renI σ maxS) =
+        (QD.quotaDistribute cfg v n prev maxS).map (Perm.renSel σ) ∧
+      ∀ r, QD.quotaDistribute cfg v n prev maxS = .ok r → Perm.Sub.CanonSel r :=
+  Perm.quotaDistribute_ren_all σ hσ cfg v hnd n prev maxS
+
+/-- **LargestRemainder: renaming equivariance for every over-award policy** -/
+theorem largest_remainder_rename_all (σ : Cand → Cand) (hσ : Function.Injective σ) (cfg : QD.Cfg) (v : Votes)
+    (hnd : (v.map (·.1)).Nodup) (n : Nat) (prev maxS : QD.IMap) (hprev : (prev.map (·.1)).Nodup) :
+    QD.largestRemainder cfg (renVotes σ v) n (Perm.renI σ prev) (Perm.renI σ maxS) =
+      (QD.largestRemainder cfg v n prev maxS).map (Perm.renSel σ) :=
+  Perm.largestRemainder_ren_all σ hσ cfg v hnd n prev maxS hprev
+
+/-! ## PureProportionality (model of C11) and the value-derived cap / floor adapter of the family table -/
+
+/-- **PureProportionality: ballot-order independence**, every `prev_gains` / `max_seats`: the same exception (division by a
+    zero total), or the same dict of exact shares up to insertion order -/
+theorem pure_proportionality_perm {v₁ v₂ : Votes} (hv : v₁.Perm v₂) (hnd : (v₁.map (·.1)).Nodup) (n : Nat) (prev maxS : Pure.IMap) :
+    ExceptEquiv List.Perm (Pure.pureProportionality v₁ n prev maxS) (Pure.pureProportionality v₂ n prev maxS) :=
+  Perm.pureProportionality_perm hv hnd n prev maxS
+
+/-- **PureProportionality: renaming equivariance** for every injective renaming (votes, previous gains, caps renamed) -/
+theorem pure_proportionality_rename (σ : Cand → Cand) (hσ : Function.Injective σ) (votes : Votes) (n : Nat) (prev maxS : Pure.IMap) :
+    Pure.pureProportionality (renVotes σ votes) n (Perm.renI σ prev) (Perm.renI σ maxS) =
+      (Pure.pureProportionality votes n prev maxS).map (renVotes σ) := Perm.pureProportionality_ren σ hσ votes n prev maxS
+
+/-- **PureProportionality with a cap on the unique largest and a floor for the unique smallest party**
+    (`PureC.pureConstrained`, the family `pure_proportionality_constrained`): ballot-order independence -/
+theorem pure_constrained_perm {v₁ v₂ : Votes} (hv : v₁.Perm v₂) (hnd : (v₁.map (·.1)).Nodup) (n : Nat) :
+    ExceptEquiv List.Perm (PureC.pureConstrained v₁ n) (PureC.pureConstrained v₂ n) := Perm.pureConstrained_perm hv hnd n
+
+/-- … and renaming equivariance -/
+theorem pure_constrained_rename (σ : Cand → Cand) (hσ : Function.Injective σ) (v : Votes) (n : Nat) :
+    PureC.pureConstrained (renVotes σ v) n = (PureC.pureConstrained v n).map (renVotes σ) := Perm.pureConstrained_ren σ hσ v n
+
 /-! ## ranked pairs under the literal premise of the property: FALSE for pairwise ties
   `Perm.MajoritiesDistinct sc v`: the strict pairwise wins of `v` have pairwise distinct strengths.  Two candidates tied pairwise
   (no majority between them) are ranked in the order of the dictionary: `ranked_pairs_perm` needs `Perm.RPDistinct`. -/
@@ -702,6 +765,16 @@ theorem benham_rename (σ : Cand → Cand) (hσ : Function.Injective σ) {p : Co
 theorem tideman_rename (σ : Cand → Cand) (hσ : Function.Injective σ) (smith : Bool) {p : Condorcet.Profile} (hp : Perm.Hyb.CanonP p) :
     Condorcet.tideman smith (Perm.Hyb.renProfileH σ p) = (Condorcet.tideman smith p).map (List.map (renSlot σ)) :=
   Perm.tideman_ren σ hσ smith hp
+
+/-- **Benham, any number of seats** (`PreConv.benhamN`: the evaluator asserts `n_seats == 1`; with another number of seats it
+    raises AssertionError whatever the profile): ballot-order independence -/
+theorem benham_n_perm {p₁ p₂ : Condorcet.Profile} (h : p₁.Perm p₂) (n : Nat) :
+    ExceptEquiv SlotsEquiv (PreConv.benhamN p₁ n) (PreConv.benhamN p₂ n) := Perm.benhamN_perm h n
+
+/-- **Benham, any number of seats: renaming equivariance** -/
+theorem benham_n_rename (σ : Cand → Cand) (hσ : Function.Injective σ) {p : Condorcet.Profile} (hp : Perm.Hyb.CanonP p) (n : Nat) :
+    ExceptEquiv SlotsEquiv (PreConv.benhamN (Perm.Hyb.renProfileH σ p) n) ((PreConv.benhamN p n).map (List.map (renSlot σ))) :=
+  Perm.benhamN_ren σ hσ hp n
 
 /-- **Tideman alternative, any number of seats (`tidemanN`): ballot-order independence** — the very same answer -/
 theorem tideman_n_perm (smith : Bool) {p₁ p₂ : Condorcet.Profile} (h : p₁.Perm p₂) (n : Nat) :
